@@ -22,8 +22,14 @@ units = [
     u("C07_variant_3", "harness/C07_variant.cpp", 1),
     u("C07_variant_4", "harness/C07_variant.cpp", 2),
     u("C07_variant_mo", "harness/C07_variant.cpp", 3),
+    u("C07_variant_rep_tcm", "harness/C07_variant.cpp", 4),
+    u("C07_variant_rep_int", "harness/C07_variant.cpp", 5),
+    u("C07_variant_rep_str", "harness/C07_variant.cpp", 6),
     u("C07_expected_int", "harness/C07_expected.cpp", 0),
     u("C07_expected_tracked", "harness/C07_expected.cpp", 1),
+    u("C07_expected_same_tcm", "harness/C07_expected.cpp", 2),
+    u("C07_expected_same_str", "harness/C07_expected.cpp", 3),
+    u("C07_expected_conv", "harness/C07_expected.cpp", 4),
     u("C07_select", "harness/C07_select.cpp", shards=(1, 1), fl=FL1),
     u("C07_unordered", "harness/C07_unordered.cpp", shards=(1, 1), fl=FL1),
     u("C07_members", "harness/C07_members.cpp", shards=(1, 1), fl=FL),
@@ -31,6 +37,7 @@ units = [
     u("C07_probe_optref_conv", "harness/C07_probe.cpp", probe=2, shards=(1, 1), fl=FL),
     u("C07_probe_visit_ref", "harness/C07_probe.cpp", probe=3, shards=(1, 1), fl=FL1),
     u("C07_probe_rvalue_monadic", "harness/C07_probe.cpp", probe=4, shards=(1, 1), fl=FL1),
+    u("C07_probe_repeated_alt_traits", "harness/C07_probe.cpp", probe=5, shards=(1, 1), fl=FL1),
 ]
 
 P = dict(
@@ -43,6 +50,8 @@ P = dict(
                 "two traces are compared item by item. Scope: optional<int>, optional<tracked copy+move>, optional<tracked move-only> incl. mixed optional<T>/optional<U> "
                 "forms; optional<int&>, optional<int const&>, optional<tracked&> against the model 'a pointer'; variant with 2, 3 and 4 alternatives (trivially copyable and "
                 "not) and a move-only variant, multi-variant visit over every index combination of 2 and 3 variants; expected<int,int>, expected<tracked,tracked2>, unexpected; "
+                "variants with REPEATED alternative types (variant<tracked,int,tracked>, variant<int,int>, variant<string-like,string-like,char>) driven purely by index incl. "
+                "visit_with_index, and expected<T,T> / expected<T,E convertible to T>; "
                 "the alternative selected by converting construction/assignment for 416 (variant, argument type) cells and 83 optional<T>/optional<U> conversion cells; "
                 "all six relations over unordered payloads (NaN, a partially ordered instrumented type whose own <,<=,>,>= calls are counted) for optional, optional<T&> and variant; "
                 "952 cells over payload types whose copy/move constructor, copy/move assignment and destructor are independently trivial or user-provided, comparing the "
